@@ -68,7 +68,7 @@ def strategy_(draw, tier):
                           "mode": draw(st.sampled_from(["table", "table", "default", "empty", "notable"])), "clear": draw(st.integers(0, 1)),
                           "triples": draw(st.lists(gen.triple_st(-3, 3), min_size=1, max_size=3))})
         elif k == "susc":
-            steps.append({"k": "susc", "abcd": [draw(ix), draw(ix), draw(ix), draw(ix)], "sub": draw(st.integers(0, 3)),
+            steps.append({"k": "susc", "abcd": list(draw(gen.susc_quad_st(N))), "sub": draw(st.integers(0, 4)),
                           "n": draw(st.lists(st.integers(-3, 3), min_size=1, max_size=3)), "tau": draw(st.booleans())})
         elif k == "vertex":
             steps.append({"k": "vertex", "ijkl": [draw(ix), draw(ix), draw(ix), draw(ix)], "W": draw(st.integers(0, 2))})
@@ -144,7 +144,7 @@ def build_queries(case):
                 classes.append("offdiag-chi")
         elif k == "susc":
             a, b, c, d = s["abcd"]
-            sub = {0: "", 1: " sub 1", 2: " sub 2 0.25 0.0 -0.5 0.125", 3: " sub 3"}[s["sub"]]
+            sub = {0: "", 1: " sub 1", 2: " sub 2 0.25 0.0 -0.5 0.125", 3: " sub 3", 4: " sub 4"}[s["sub"]]
             sel = " n %d %s" % (len(s["n"]), " ".join(map(str, s["n"])))
             if s["tau"]:
                 sel += " tau 3 0.0 %r %r" % (beta / 2, beta)
